@@ -349,6 +349,28 @@ def run(ctx):
     ctx.notes["corpus"] = cstats
     ctx.log("corpus: %s" % json.dumps(cstats))
 
+    # ---- (1e) the import section of a stored V1 artifact: per host function, the ImportFunc tag written by
+    # `Output` loads as the same variant, a module importing it has the same processed imports after
+    # output -> parse_artifact, and the context getters report the same values from the stored artifact
+    # (context with pairwise different invoker / owner / sender / ...); re-serialisation is blind to this
+    rc, out = c.run_bin(binp, ["imports"], timeout=600)
+    istats = {}
+    for l in out.splitlines():
+        if l.startswith("{"):
+            r = json.loads(l)
+            istats = r.get("import_stats", {})
+            for v in r.get("viol", []):
+                ctx.violation({"layer": "v1 stored artifact imports (ImportFunc Output/Parseable)", "host_function": v.get("name"),
+                               "oracle": v.get("kind"), "what": v.get("msg"),
+                               "how_to_replay": ".cache/target/release/c13 imports   (line IMPORT-ROUNDTRIP-MISMATCH %s)" % v.get("name")},
+                              "import %s: %s: %s" % (v.get("name"), v.get("kind"), str(v.get("msg"))[:300]))
+    if rc != 0 or not istats:
+        ctx.violation({"layer": "imports harness", "output": out[-1500:]}, "the imports harness failed", no_input=True)
+    elif not istats.get("getter_results_pairwise_distinct"):
+        ctx.violation({"layer": "imports harness", "stats": istats}, "the getter context does not separate the getters", no_input=True)
+    ctx.notes["imports"] = {k: v for k, v in istats.items() if k != "getters"}
+    ctx.log("imports: %s" % json.dumps(ctx.notes["imports"]))
+
     # ---- (1c) the v1 engine
     ne = 60 if ctx.quick else 600
     rc, out = c.run_bin(binp, ["engine", ctx.seed, ne], timeout=1800)
